@@ -67,7 +67,7 @@ def cases(rng, tier, Case):
         if any(c in dl2 for c in "[]\\") or not dl2.strip() or re.search(r"\n[ \t]*\n", dl2):
             dl2 = dl
         d2 = "[%s]: /second" % dl2
-        place = rng.choice(["before", "after", "quote", "item", "both"])
+        place = rng.choice(["before", "after", "quote", "item", "both", "wide", "lazy", "tabend"])
         if place == "before":
             doc = d1 + "\n\n" + use
         elif place == "after":
@@ -76,6 +76,19 @@ def cases(rng, tier, Case):
             doc = use + "\n\n> " + d1.replace("\n", "\n> ")
         elif place == "item":
             doc = "- " + d1.replace("\n", "\n  ") + "\n\n" + use
+        elif place == "wide":
+            # list items whose content starts at column 4 or more, nested items, items in quotes
+            mk = rng.choice(["10. ", "-   ", "1.  ", "100. ", "- - ", "> 10. ", "> -   ", "1. - "])
+            pad = " " * len(mk) if not mk.startswith(">") else "> " + " " * (len(mk) - 2)
+            doc = mk + d1.replace("\n", "\n" + pad) + "\n\n" + use
+        elif place == "lazy":
+            # destination and/or title on lazy continuation lines of a quote or list item
+            if "\n" in dl:
+                continue
+            cont = rng.choice(["[%s]:\n/first 'T1'", "[%s]: /first\n'T1'", "[%s]:\n/first\n'T1'"]) % dl
+            doc = rng.choice(["> ", "- ", "> - ", "1. "]) + cont + "\n\n" + use
+        elif place == "tabend":
+            doc = d1 + rng.choice(["\t", " \t", "\t "]) + "\n[zz9]: /other\n\n" + use
         else:
             doc = d1 + "\n" + d2 + "\n\n" + use + "\n\n" + d2
         doc = mdgen.clean_utf8(doc)
@@ -128,7 +141,11 @@ def oracle(case, io, mo):
     html = unhx(f["html"])
     defined = b"/first" not in html.replace(b'href="/first"', b"").replace(b'src="/first"', b"")
     if not defined:
-        return None        # the definition text itself was not accepted as a definition (shows up as text)
+        # labels with a line break inside may legitimately fail to parse as one label; a one-line definition must be accepted
+        # wherever it stands (top level, quotes, list items of any width, lazy continuation, trailing blanks)
+        if "\n" not in dl and "\r" not in dl and not any(c in dl for c in WS[5:]):
+            return "the definition of label %r was not accepted as a definition (its text shows up in the output)" % dl
+        return None
     should = norm_ref(dl) == norm_ref(ul)
     kind = "Image" if p["form"].startswith("image") else "Link"
     hits = [n for n in nodes if n.kind == kind]
